@@ -343,7 +343,8 @@ def case_elbo_re(ck, rng, bad, with_cl=False):
     space = pick(rng, ["signal", "data", "auto"])
     use_data = space == "data" or (space == "auto" and m <= n)
     kw = dict(trace_log_method=method, trace_log_space=space, metric_jit=bool(rng.integers(0, 2)),
-              n_batches=int(rng.integers(1, 4)), verbose=False)
+              n_batches=int(rng.integers(1, 4)), verbose=False,
+              output_directory=None)       # the default "" would write metric_*.npy into the cwd
     mode = pick(rng, ["all", "all", "compute_all", "partial", "resume"] + (["partial"] * 3 if method == "slq" else []))
     if nrel == 1 and mode in ("partial", "resume"):
         mode = "all"
